@@ -21,7 +21,7 @@ LEVEL = "model_checking"
 FREQ = np.array([0.05, 0.07, 0.1, 0.125, 0.18])
 DIRS = np.arange(4) * 90.0 + 10.0
 SIZES = {"time": 3, "site": 2, "freq": 5, "dir": 4}
-F32_DERIVED = {"gamma": 2e-6, "alpha": 2e-6, "fp": 2e-6, "fit_jonswap": 1e-4}
+F32_DERIVED = {"gamma": 2e-6, "alpha": 2e-6, "fp": 2e-6, "fit_jonswap": 1e-4, "fit_gaussian": 1e-4}
 
 
 def dataset():
@@ -67,8 +67,9 @@ def operations(tier):
     ops["ptm5"] = lambda da, aux: da.spec.partition.ptm5(fcut=0.11)
     ops["bbox"] = lambda da, aux: da.spec.partition.bbox([dict(fmin=0.06, fmax=0.11, dmin=50.0, dmax=200.0)])
     ops["ptm1_track"] = lambda da, aux: da.spec.partition.ptm1_track(aux["wspd"], aux["wdir"], aux["dpt"], swells=2)
+    ops["fit_jonswap"] = lambda da, aux: da.spec.fit_jonswap(spectra=False)
     if tier == "thorough":
-        ops["fit_jonswap"] = lambda da, aux: da.spec.fit_jonswap()
+        ops["fit_gaussian"] = lambda da, aux: da.spec.fit_gaussian(spectra=False)
     return ops
 
 
@@ -211,7 +212,7 @@ def run_sched_item(it):
     try:
         bounds = [it["bound"]] if it["bound"] is None else list(range(1, it["bound"] + 1))
         for b in bounds:
-            st_b = tasksched.explore(build, on, bound=b, max_runs=it["max_runs"])
+            st_b = tasksched.explore(build, on, bound=b, max_runs=it["max_runs"], max_seconds=it.get("max_seconds"))
             if st is None:
                 st = st_b
             else:
@@ -312,7 +313,7 @@ def run_thread_item(it):
             bad.append((list(choices), why))
 
     try:
-        st = threadsched.explore(mk, on, it["bound"], pk, max_runs=it["max_runs"])
+        st = threadsched.explore(mk, on, it["bound"], pk, max_runs=it["max_runs"], max_seconds=it.get("max_seconds"))
     except Exception as e:  # noqa
         res["violations"].append(Violation(PROP, "%s|%s|thread-interleaving" % (name, "deadlock-or-hang" if "deadlock" in str(e) else "harness-error"), str(e)[:300], dict(kind="thread", name=name, choices=[])))
         return res
@@ -432,14 +433,14 @@ def run(rep, tier, seed, parts=None):
             if tier == "quick":
                 if name == "ptm3(smooth)/time-chunks":
                     continue  # several thousand single-deviation orders: thorough tier only
-                items.append(dict(kind="B", name=name, bound=1 if name in big else 3, max_runs=2500))
+                items.append(dict(kind="B", name=name, bound=1 if name in big else 3, max_runs=2500, max_seconds=240))
             else:
-                items.append(dict(kind="B", name=name, bound=2 if name in big else None, max_runs=30000))
+                items.append(dict(kind="B", name=name, bound=1 if name in big else 6, max_runs=40000, max_seconds=500))
     if parts is None or "C" in parts:
         W, _ = thread_workloads()
         for name in W:
             nplevel = name.startswith("np_")
-            items.append(dict(kind="C", name=name, bound=(2 if (tier == "thorough" and nplevel) else 1), max_runs=6000))
+            items.append(dict(kind="C", name=name, bound=(2 if (tier == "thorough" and nplevel) else 1), max_runs=8000, max_seconds=500))
     if parts is None or "D" in parts:
         items.append(dict(kind="D", repeats=1 if tier == "quick" else 5))
 
